@@ -5,6 +5,7 @@ package recordlayer
 //symgo:param NDGRAM quick=28 thorough=40
 //symgo:param NDGRAM13 quick=24 thorough=40
 //symgo:param NREC quick=6 thorough=12
+//symgo:param NRECHS quick=3 thorough=8
 //symgo:param NCIDS quick=2 thorough=5
 //symgo:outside record bodies longer than the stated byte counts (decoders are length-generic; every length 0..N is enumerated)
 
@@ -75,12 +76,12 @@ func zzDecRecordLayerNoPanic() {
 	zzsymCover("rec_ok")
 }
 
-// RecordLayer.Unmarshal with a handshake content type: the 12-byte handshake header plus 0..NREC body bytes
+// RecordLayer.Unmarshal with a handshake content type: the 12-byte handshake header plus 0..NRECHS body bytes
 // are arbitrary, so every handshake message decoder is reached through the record layer: no panic.
 //
 //symgo:entry covers=rechs_ok,rechs_rejected
 func zzDecRecordLayerHandshakeNoPanic() {
-	n := zzsymChoice("bodylen", zzsymParam("NREC")+1)
+	n := zzsymChoice("bodylen", zzsymParam("NRECHS")+1)
 	data := zzsymBytes("d", FixedHeaderSize+12+n)
 	zzsymAssume(data[0] == byte(protocol.ContentTypeHandshake))
 	r := RecordLayer{}
@@ -167,14 +168,14 @@ func zzDecUnifiedHeaderNoPanic() {
 }
 
 // DTLSPlaintext (1.3 epoch 0) record Unmarshal on arbitrary bytes, lengths 0..13+NREC for alert/ACK and
-// 13+12+0..NREC for handshake: no panic.
+// 13+12+0..NRECHS for handshake: no panic.
 //
 //symgo:entry covers=p13_ok,p13_rejected
 func zzDecPlaintext13NoPanic() {
 	hs := zzsymChoice("hs", 2)
 	var data []byte
 	if hs == 1 {
-		data = zzsymBytes("d", FixedHeaderSize+12+zzsymChoice("bodylen", zzsymParam("NREC")+1))
+		data = zzsymBytes("d", FixedHeaderSize+12+zzsymChoice("bodylen", zzsymParam("NRECHS")+1))
 		zzsymAssume(data[0] == byte(protocol.ContentTypeHandshake))
 	} else {
 		data = zzsymBytes("d", zzsymChoice("len", FixedHeaderSize+zzsymParam("NREC")+1))
